@@ -211,7 +211,11 @@ Errs(cat, files, e) ==
       [] e.op = "Export" -> NoColl(cat, e.c) \cup (IF e.path \in UnwritablePaths THEN {"other"} ELSE {})
       [] e.op = "Import" ->
             (IF HasColl(cat, e.c) THEN {"ErrCollectionExist"} ELSE {})
-            \cup (IF e.path \notin DOMAIN files \/ files[e.path][1] # "docs" THEN {"other"}
+            \* a dump of n generated documents whose k-th one repeats the first id ("dup") or carries a
+            \* malformed one ("bad"): <<"gen", n, k, kind>>.  However long it is, nothing of it is imported
+            \cup (IF e.path \in DOMAIN files /\ files[e.path][1] = "gen"
+                  THEN (IF files[e.path][4] = "dup" THEN {"ErrDuplicateKey"} ELSE {"other"})
+                  ELSE IF e.path \notin DOMAIN files \/ files[e.path][1] # "docs" THEN {"other"}
                   ELSE LET ds == FileDocs(files[e.path]) IN
                        IF \E i \in DOMAIN ds : ~NeedsGen(ds[i]) /\ ~ValidDoc(ds[i])
                        THEN {"other"}
